@@ -307,6 +307,20 @@ def ofmInjectiveMsgs (fm : FM) : Msgs :=
   let sorted := (dims.filter (·.2 > 1)).foldl (fun acc d => insertDim d acc) []
   if nestedFrom es sorted then [] else [s!"ofm.overlap:strides(y,x,c)={sy},{sx},{sc}:extent={fm.shape.height},{fm.shape.width},{fm.shape.depth}"]
 
+/-- The window walk of a convolution / pooling operation stays inside the IFM extent the operation declares: the rows and
+    columns the kernel visits for the OFM extent, `(ofm − 1)·stride + dilated kernel − padding`, are at most the IFM box
+    (a box may be larger than what the kernel visits, never smaller: the hardware would read rows of the next stripe as if
+    they were this one's).  Without IFM upscaling only. -/
+def windowMsgs (op : BlockOp) : Msgs :=
+  match op.kernel, op.padding with
+  | some k, some p =>
+    if op.kind == .elementwise ∨ op.upscale ≠ 0 then [] else
+    let needH := (op.ofm.shape.height - 1) * k.strideY + (k.dilationY * (k.height - 1) + 1) - p.top - p.bottom
+    let needW := (op.ofm.shape.width - 1) * k.strideX + (k.dilationX * (k.width - 1) + 1) - p.left - p.right
+    (if needH ≤ op.ifm.shape.height then [] else [s!"ifm.window.height:kernel-walks={needH}:declared={op.ifm.shape.height}"]) ++
+    (if needW ≤ op.ifm.shape.width then [] else [s!"ifm.window.width:kernel-walks={needW}:declared={op.ifm.shape.width}"])
+  | _, _ => []
+
 def verdict (ms : Msgs) : String := s!"{ms.length} " ++ "~".intercalate (ms.take 6)
 
 end VelaVerif.NpuOpSpec
